@@ -18,7 +18,7 @@ from vlib import rawgraph, tally_ref as T, topogen
 PROPERTY = 'C11'
 LEVEL = 'exploration'
 SHARDS = {'quick': 4, 'thorough': 16}
-TIME_BUDGET = {"quick": 50, 'thorough': 780}
+TIME_BUDGET = {"quick": 110, 'thorough': 780}
 MIRROR_KEY = 'C11/mirror-exemption-removes-other-services-site'
 RULE = ('random valid slices: 1-5 nodes (VM/Server/Container/NAS, with/without/partial capacities) over 1-3 sites, 0-4 components '
         'per node over every component model discovered at run time, 0-2 switches, 0-2 facilities (also at sites no node uses), '
@@ -29,7 +29,7 @@ RULE = ('random valid slices: 1-5 nodes (VM/Server/Container/NAS, with/without/p
         'by its build script), non-trivial when it has at least one component, service, switch or facility')
 REQUIRED = ['slices', 'builds', 'clause:tally', 'clause:pdp', 'clause:order', 'clause:serialized', 'clause:accounting',
             'clause:accounting-serialized', 'shape:mirror-inside', 'shape:mirror-outside', 'shape:mirror-inside+outside-same-site',
-            'shape:ext-v4', 'shape:ext-v6', 'shape:several-ext-per-site', 'shape:facility', 'shape:switch', 'shape:service-bw',
+            'shape:ext-v4', 'shape:ext-v6', 'shape:several-ext-per-site', 'shape:special-service-type-at-two-sites', 'shape:facility', 'shape:switch', 'shape:service-bw',
             'shape:service-explicit-site', 'shape:node-without-capacities', 'shape:multi-site', 'shape:same-component-type-twice',
             'shape:facility-at-unused-site', 'shape:non-vm-node', 'all-component-models-used']
 ASSUMPTIONS = ['slices are valid (validate() passes) and collection happens after validate(), as the statement says; collection '
@@ -96,8 +96,8 @@ def discover(ctx=None):
 def gen_script(rng, vocab, force_model=None):
     models = sorted(vocab['models'])
     nic = [m for m in models if vocab['models'][m]['ports']]
-    used_sites = rng.sample(SITES[:4], rng.choice([1, 1, 2, 2, 3]))
-    mode = rng.choice(['mirror', 'mirror', 'ext', 'mixed', 'mixed', 'plain'])
+    used_sites = rng.sample(SITES[:4], rng.choice([1, 2, 2, 2, 3]))
+    mode = rng.choice(['mirror', 'mirror', 'ext', 'ext', 'mixed', 'mixed', 'plain'])
     nodes, ports = [], []          # ports: (ref, owner, site, itype)
     nn = rng.choice([1, 2, 2, 3, 3, 4, 5])
     for i in range(nn):
@@ -113,7 +113,7 @@ def gen_script(rng, vocab, force_model=None):
         comps = []
         if ntype != 'NAS':
             for j in range(rng.choice([0, 1, 1, 2, 2, 3, 4] if nn < 4 else [0, 1, 1, 2])):
-                model = rng.choice(nic) if rng.random() < 0.6 else rng.choice(models)
+                model = rng.choice(nic) if rng.random() < (0.85 if j == 0 else 0.5) else rng.choice(models)
                 if force_model and i == 0 and j == 0:
                     model = force_model
                 cn = f'n{i}c{j}'
@@ -188,9 +188,12 @@ def gen_script(rng, vocab, force_model=None):
         services.append({'name': name('svc'), 'nstype': st, 'interfaces': [p[0] for p in got], 'bw': maybe_bw(), 'site': explicit,
                          'peer_labels': {}})
     # externally routed services, several per site
-    for _ in range({'plain': 0, 'mixed': rng.choice([0, 1, 2]), 'ext': rng.choice([1, 2, 3, 3]), 'mirror': rng.choice([0, 0, 1])}[mode]):
-        st = rng.choice(['FABNetv4Ext', 'FABNetv6Ext'])
-        site = rng.choice(used_sites)
+    ext_bias, ext_n = rng.choice(['FABNetv4Ext', 'FABNetv6Ext']), [rng.randrange(3)]
+    for _ in range({'plain': 0, 'mixed': rng.choice([0, 1, 2, 2]), 'ext': rng.choice([2, 2, 3, 3]), 'mirror': rng.choice([0, 0, 1])}[mode]):
+        # mostly the same type again, at the next site: one attribute has to list several sites
+        st = ext_bias if rng.random() < 0.7 else rng.choice(['FABNetv4Ext', 'FABNetv6Ext'])
+        site = used_sites[ext_n[0] % len(used_sites)] if rng.random() < 0.6 else rng.choice(used_sites)
+        ext_n[0] += 1
         got = take(lambda p: p[2] == site and kinds[p[1]] != 'facility', rng.choice([1, 1, 2]))
         if not got:
             continue
@@ -213,7 +216,7 @@ def gen_script(rng, vocab, force_model=None):
     nm_ = {'plain': 0, 'mixed': rng.choice([0, 1, 2]), 'ext': rng.choice([0, 0, 1]), 'mirror': rng.choice([2, 2, 3, 4])}[mode]
     last_site, last_inside = None, None
     for _ in range(nm_):
-        pref = last_site if (last_site and rng.random() < 0.7) else rng.choice(used_sites)
+        pref = last_site if (last_site and rng.random() < 0.55) else rng.choice(used_sites)
         got = take(lambda p: p[2] == pref and kinds[p[1]] != 'facility', 1) or take(lambda p: kinds[p[1]] != 'facility', 1)
         if not got:
             break
@@ -493,6 +496,11 @@ def shapes(ctx, script, vocab):
         ctx.count('shape:ext-v6')
     if len(ext) != len(set(ext)) or len({st for _, st in ext}) < len(ext):
         ctx.count('shape:several-ext-per-site')
+    special = {}
+    for t, st in ext + [('PortMirror', st) for st, i in mir if not i]:
+        special.setdefault(t, set()).add(st)
+    if any(len(v) > 1 for v in special.values()):
+        ctx.count('shape:special-service-type-at-two-sites')
     kinds = [n['kind'] for n in script['nodes']]
     if 'facility' in kinds:
         ctx.count('shape:facility')
@@ -609,7 +617,7 @@ def run(ctx):
     if problems:
         return
     rng = ctx.rng
-    n = ctx.pick(25, 1500)
+    n = ctx.pick(25, 200)
     k = ctx.pick(4, 8)
     models = sorted(vocab['models'])
     for i in range(n):
